@@ -68,6 +68,10 @@ func c04run(line string) (string, []string) {
 			ds = append(ds, drec{o, l, unhx(t.s())})
 		}
 		id := t.u()
+		tileType := uint8(2) // optional trailing token: the header's tile type (0 = unknown/other, valid per the spec: any extension is served)
+		if t.i < len(t.t) {
+			tileType = uint8(t.u())
+		}
 		// reassemble the file: header, root at 127, leaves at their offsets, tile data after everything
 		end := ro + rl
 		for _, d := range ds {
@@ -88,26 +92,30 @@ func c04run(line string) (string, []string) {
 			}
 		}
 		h := Hdr{Version: 3, RootOff: ro, RootLen: rl, MetaOff: ro + rl, MetaLen: 0, LeafOff: lb, LeafLen: leafEnd - lb, DataOff: end, DataLen: uint64(len(data)),
-			IntComp: 1, TileComp: 1, TileType: 2, MinZoom: 0, MaxZoom: 31, MinLon: -10, MinLat: -10, MaxLon: 10, MaxLat: 10}
+			IntComp: 1, TileComp: 1, TileType: tileType, MinZoom: 0, MaxZoom: 31, MinLon: -10, MinLat: -10, MaxLon: 10, MaxLat: 10}
 		if gzipped {
 			h.IntComp = 2
 		}
 		copy(file, specEncodeHeader(h))
 		file = append(file, data...)
-		return serveTile(file, id)
+		return serveTile(file, id, tileType)
 	}
 	return "unknown-op", nil
 }
 
 // serveTile asks the real server and the real CLI for one tile of an archive; the two must agree.
-func serveTile(file []byte, id uint64) (string, []string) {
+func serveTile(file []byte, id uint64, tileType uint8) (string, []string) {
 	var viol []string
 	z, x, y := pmtiles.IDToZxy(id)
+	ext := extOf[tileType]
+	if ext == "" {
+		ext = []string{"bin", "mvt", "png"}[id%3]
+	}
 	bk := newMemBucket()
 	bk.put("a.pmtiles", file, "v1")
 	srv, _ := pmtiles.NewServerWithBucket(bk, "", quietLogger, 64, "")
 	srv.Start()
-	status, _, body := srv.Get(context.Background(), fmt.Sprintf("/a/%d/%d/%d.png", z, x, y))
+	status, _, body := srv.Get(context.Background(), fmt.Sprintf("/a/%d/%d/%d.%s", z, x, y, ext))
 	res := fmt.Sprintf("%d", status)
 	if status == 200 {
 		res += " " + hx(body)
@@ -215,7 +223,7 @@ func c04(r *rng, tier string, o *out) {
 				continue
 			}
 			var sb strings.Builder
-			fmt.Fprintf(&sb, "tile %s %d 127 %d %d %s %d", hx(data), a.LeafLB, a.H.RootLen, b2i(a.Opts.gzip), a.dirsStr(), id)
+			fmt.Fprintf(&sb, "tile %s %d 127 %d %d %s %d %d", hx(data), a.LeafLB, a.H.RootLen, b2i(a.Opts.gzip), a.dirsStr(), id, (c+k)%6)
 			emit(sb.String(), depth > 0, fmt.Sprintf("tile-depth=%d", depth), func() (string, bool) {
 				if b, ok := a.truth(id); ok {
 					return "200 " + hx(b), true
@@ -258,7 +266,7 @@ func c04(r *rng, tier string, o *out) {
 		for k := 0; k < 4; k++ {
 			id := qs[(c+2*k+r.intn(2))%len(qs)]
 			var sb strings.Builder
-			fmt.Fprintf(&sb, "tile %s %d 127 %d %d %s %d", hx(data), a.LeafLB, a.H.RootLen, b2i(gzipped), a.dirsStr(), id)
+			fmt.Fprintf(&sb, "tile %s %d 127 %d %d %s %d %d", hx(data), a.LeafLB, a.H.RootLen, b2i(gzipped), a.dirsStr(), id, (c+k)%6)
 			emit(sb.String(), true, fmt.Sprintf("tile-bigdir-depth=%d-gzip=%v", depth, gzipped), func() (string, bool) {
 				if b, ok := a.truth(id); ok {
 					return "200 " + hx(b), true
